@@ -8,7 +8,7 @@ import string
 
 from ..cfg import cfg_of
 from ..model import AnalysisError, NotConst, call_name, calls_in, dotted, norm, walk_no_nested
-from .. import rules
+from .. import normal, rules
 from .. import conds as cnd
 from . import _codec
 
@@ -274,7 +274,187 @@ def check_names_and_numbers(ctx):
     ctx.ob("C15.T2", lw.qualname, ok, "lists are written with their member count" if ok else "ItemL.to_sml does not write the member count", where=lw.where)
 
 
+# --------------------------------------------------------------------------------------------- the text writer as a transducer
+class _Unknown(Exception):
+    pass
+
+
+def _merge(pieces):
+    out = []
+    for p in pieces:
+        if p[0] == "lit" and p[1] == "":
+            continue
+        if p[0] == "lit" and out and out[-1][0] == "lit":
+            out[-1] = ("lit", out[-1][1] + p[1])
+        else:
+            out.append(p)
+    return tuple(out)
+
+
+class _Writer:
+    """Abstract evaluation of the statements of ItemStr.to_sml over: booleans, text = tuple of pieces ("lit", s) | ("char",)
+    | ("hex",), the current character (symbol), `char in self.printable_chars` = a given boolean."""
+
+    def __init__(self, char_var, printable):
+        self.char_var, self.printable = char_var, printable
+
+    def ev(self, e, env):
+        if isinstance(e, ast.Constant):
+            if isinstance(e.value, bool):
+                return e.value
+            if isinstance(e.value, str):
+                return (("lit", e.value),)
+            raise _Unknown(norm(e))
+        if isinstance(e, ast.Name):
+            if e.id == self.char_var:
+                return (("char",),)
+            if e.id in env:
+                return env[e.id]
+            raise _Unknown(f"name {e.id}")
+        if isinstance(e, ast.Compare) and len(e.ops) == 1 and isinstance(e.ops[0], (ast.In, ast.NotIn)) and norm(e.comparators[0]) == "self.printable_chars" and self.ev(e.left, env) == (("char",),):
+            return self.printable if isinstance(e.ops[0], ast.In) else not self.printable
+        if isinstance(e, ast.UnaryOp) and isinstance(e.op, ast.Not):
+            v = self.ev(e.operand, env)
+            if isinstance(v, bool):
+                return not v
+            raise _Unknown(norm(e))
+        if isinstance(e, ast.BoolOp):
+            vals = [self.ev(v, env) for v in e.values]
+            if all(isinstance(v, bool) for v in vals):
+                return all(vals) if isinstance(e.op, ast.And) else any(vals)
+            raise _Unknown(norm(e))
+        if isinstance(e, ast.IfExp):
+            t = self.ev(e.test, env)
+            if not isinstance(t, bool):
+                raise _Unknown(norm(e.test))
+            return self.ev(e.body if t else e.orelse, env)
+        if isinstance(e, ast.BinOp) and isinstance(e.op, ast.Add):
+            a, b = self.ev(e.left, env), self.ev(e.right, env)
+            if isinstance(a, tuple) and isinstance(b, tuple):
+                return _merge(a + b)
+            raise _Unknown(norm(e))
+        if isinstance(e, ast.JoinedStr):
+            out = ()
+            for v in e.values:
+                if isinstance(v, ast.Constant):
+                    out += (("lit", str(v.value)),)
+                elif isinstance(v, ast.FormattedValue) and v.conversion == -1 and v.format_spec is None:
+                    x = self.ev(v.value, env)
+                    if not isinstance(x, tuple):
+                        raise _Unknown(norm(e))
+                    out += x
+                else:
+                    raise _Unknown(norm(e))
+            return _merge(out)
+        if isinstance(e, ast.Call) and call_name(e) == "hex" and len(e.args) == 1:
+            a = e.args[0]
+            # hex(<char>.encode(self._encoding)[0]): the code of the character in the item's own codec
+            if (isinstance(a, ast.Subscript) and norm(a.slice) == "0" and isinstance(a.value, ast.Call) and isinstance(a.value.func, ast.Attribute) and a.value.func.attr == "encode"
+                    and [norm(x) for x in a.value.args] == ["self._encoding"] and self.ev(a.value.func.value, env) == (("char",),)):
+                return (("hex",),)
+            raise _Unknown(norm(e))
+        raise _Unknown(norm(e))
+
+    def run(self, stmts, env):
+        for st in stmts:
+            if isinstance(st, ast.Assign) and len(st.targets) == 1 and isinstance(st.targets[0], ast.Name):
+                env[st.targets[0].id] = self.ev(st.value, env)
+            elif isinstance(st, ast.AugAssign) and isinstance(st.op, ast.Add) and isinstance(st.target, ast.Name):
+                cur, add = env.get(st.target.id), self.ev(st.value, env)
+                if not (isinstance(cur, tuple) and isinstance(add, tuple)):
+                    raise _Unknown(norm(st))
+                env[st.target.id] = _merge(cur + add)
+            elif isinstance(st, ast.If):
+                t = self.ev(st.test, env)
+                if not isinstance(t, bool):
+                    raise _Unknown(norm(st.test))
+                self.run(st.body if t else st.orelse, env)
+            elif isinstance(st, (ast.Pass,)) or (isinstance(st, ast.Expr) and isinstance(st.value, ast.Constant)):
+                continue
+            else:
+                raise _Unknown(norm(st)[:60])
+        return env
+
+
+REF_WRITER = {  # (inside quotes?, printable?) -> (text written, inside quotes afterwards)
+    (False, True): ((("lit", ' "'), ("char",)), True),
+    (True, True): ((("char",),), True),
+    (True, False): ((("lit", '" '), ("hex",)), False),
+    (False, False): ((("lit", " "), ("hex",)), False),
+}
+
+
+def check_text_writer(ctx):
+    """ItemStr.to_sml, read as a transducer over (state, is the character printable?), is equivalent to the reference:
+    printable characters inside one pair of quotes, every other character as the hexadecimal code of its byte outside
+    quotes, the quote closed at the end.  Equivalence is decided on the product of the two automata (the implementation's
+    state = its loop-carried booleans), so flags may be renamed, merged with conditional expressions or computed from
+    the class test."""
+    repo = ctx.repo
+    f = repo.method("ItemStr", "to_sml", inherited=False)
+    ctx.touch(f)
+    q = f.qualname
+    fn = normal.normalised(ctx, f, aliases=False, comps=False, ifexp=False)
+    body = [s for s in fn.body if not (isinstance(s, ast.Expr) and isinstance(s.value, ast.Constant))]
+    loops = [s for s in body if isinstance(s, ast.For)]
+    ctx.require(len(loops) == 1 and isinstance(loops[0].target, ast.Name) and norm(loops[0].iter) == "self._value" and not loops[0].orelse, f"{q}: the loop over the characters of the value was not found")
+    loop = loops[0]
+    i = body.index(loop)
+    pre, post = body[:i], body[i + 1:]
+    rets = [s for s in post if isinstance(s, ast.Return)]
+    ctx.require(len(rets) == 1 and post[-1] is rets[0], f"{q}: expected one return after the loop")
+    try:
+        init = _Writer(loop.target.id, True).run(pre, {})
+    except _Unknown as exc:
+        raise AnalysisError(f"{q}: initialisation `{exc}` is outside the writer idioms") from exc
+    carried = sorted(k for k, v in init.items())
+
+    def key(env):
+        return tuple((k, env[k]) for k in carried if isinstance(env.get(k), bool))
+
+    def texts(env):
+        return {k: env[k] for k in carried if isinstance(env.get(k), tuple)}
+
+    seen, work, problems, pairs = {}, [(dict(init), False)], [], 0
+    try:
+        while work:
+            env, ref_state = work.pop()
+            k = key(env)
+            if k in seen:
+                if seen[k] != ref_state:
+                    problems.append(f"the same writer state {dict(k)} stands for both `inside quotes` and `outside quotes`")
+                continue
+            seen[k] = ref_state
+            for printable in (True, False):
+                start = {n: (v if isinstance(v, bool) else ()) for n, v in env.items()}
+                after = _Writer(loop.target.id, printable).run(loop.body, dict(start))
+                written = [v for n, v in texts(after).items() if v]
+                want_text, want_state = REF_WRITER[(ref_state, printable)]
+                pairs += 1
+                if len(written) != 1 or written[0] != want_text:
+                    problems.append(f"{'inside' if ref_state else 'outside'} quotes, {'printable' if printable else 'other'} character: writes {written}, the format needs {want_text}")
+                nxt = {n: (v if isinstance(v, bool) else ()) for n, v in after.items() if n in carried}
+                work.append((nxt, want_state))
+            # the end of the text
+            fin = _Writer(loop.target.id, True).run(post[:-1], {n: (v if isinstance(v, bool) else ()) for n, v in env.items()})
+            closing = [v for n, v in texts(fin).items() if v]
+            want = [(("lit", '"'),)] if ref_state else []
+            if closing != want:
+                problems.append(f"at the end {'inside' if ref_state else 'outside'} quotes: writes {closing}, the format needs {want}")
+    except _Unknown as exc:
+        raise AnalysisError(f"{q}: `{exc}` is outside the writer idioms") from exc
+    ok = not problems
+    ctx.ob("C15.T1", q, ok, f"the text writer is equivalent to the reference quoting transducer ({pairs} state/class pairs)" if ok else
+           f"the text writer deviates from the SML text format: {problems[0]}", key="writer-transducer", where=f.where)
+    # what is returned: indentation, '< ', type name, the text, '>'
+    acc = [k for k in carried if isinstance(init[k], tuple)]
+    tpl = rules.text_template(rets[0].value) if rets[0].value is not None else None
+    ok = len(acc) == 1 and tpl == [("fmt", "indent * ' '", ""), ("lit", "< "), ("fmt", "self._sml_type", ""), ("fmt", acc[0], ""), ("lit", ">")]
+    ctx.ob("C15.T1", q, ok, "the item is written as `< TYPE text>`" if ok else f"the item text is assembled as {tpl}", key="writer-frame", where=f.where)
+
+
 def run(ctx):
+    check_text_writer(ctx)
     check_tokenizer(ctx)
     check_readers(ctx)
     check_alphabet(ctx)
